@@ -12,7 +12,7 @@ VARIABLES l,        \* next line to judge
           bad       \* set of findings <<line, layer, name>>
 vars == <<l, aux, bad>>
 
-InitAux == [props |-> <<>>, nextProp |-> 1]
+InitAux == [props |-> <<>>, nextProp |-> 1, ever |-> [wrk |-> <<>>, bcn |-> <<>>], sh |-> <<>>]
 
 ------------------------------------------------------------------------------
 (* L2: view comparison between the expected and the observed post-state *)
@@ -78,6 +78,14 @@ StateMonitors(o) ==
   \cup (IF ~Sustained(o) THEN {<<"C11", "Sustained">>} ELSE {})
   \cup (IF ~RegistryOk(o, "wrk") THEN {<<"C08", "RegistryOkWrk">>} ELSE {})
   \cup (IF ~RegistryOk(o, "bcn") THEN {<<"C08", "RegistryOkBcn">>} ELSE {})
+  \cup (IF ~StoredParamsValid(o) THEN {<<"C16", "StoredParamsValid">>} ELSE {})
+
+\* monitors that need the spec-kept history (aux) next to the observed state
+HistMonitors(o, ax) ==
+  LET oa == o @@ [aux |-> ax] IN
+     (IF ~HistoryOk(oa, "wrk") THEN {<<"C07", "InStateEqualsNewestAcceptedWrk">>, <<"C08", "InStateEqualsNewestAcceptedWrk">>} ELSE {})
+  \cup (IF ~HistoryOk(oa, "bcn") THEN {<<"C07", "InStateEqualsNewestAcceptedBcn">>, <<"C08", "InStateEqualsNewestAcceptedBcn">>} ELSE {})
+  \cup (IF ~Conserved(oa) THEN {<<"C10", "PerStreamConservation">>} ELSE {})
 
 (* L1: property monitors on one observed step s --ev--> t *)
 StepMonitors(s, t, ev) ==
@@ -93,6 +101,16 @@ StepMonitors(s, t, ev) ==
   \cup (IF ~C04Step(s, t, ev) THEN {<<"C04", "EscrowOnlyByCompletionOrUnlock">>} ELSE {})
   \cup (IF ~C02Step(s, t, ev) THEN {<<"C02", "MintOnlyByCompletion">>} ELSE {})
   \cup (IF ~C05Step(s, t, ev) THEN {<<"C05", "LockedDropsOnlyByFeeTx">>} ELSE {})
+  \cup (IF ~NoRewrite(s, t) THEN {<<"C07", "NoRewrite">>} ELSE {})
+  \cup (IF ~AppendOnly(s, t, ev) THEN {<<"C07", "AppendOnly">>, <<"C08", "AppendOnly">>} ELSE {})
+  \cup (IF ~LimitChangesOnlyByOwnerPurchase(s, t, ev) THEN {<<"C08", "LimitChangesOnlyByOwnerPurchase">>} ELSE {})
+  \cup (IF ~LimitStartsAtDefault(s, t) THEN {<<"C08", "LimitStartsAtDefault">>} ELSE {})
+  \cup (IF ~MetaImmutable(s, t) THEN {<<"C09", "MetaImmutable">>} ELSE {})
+  \cup (IF MetaImmutable(s, t) /\ ~OnlyOwnerWrites(s, t, ev) THEN {<<"C09", "OnlyOwnerWrites">>, <<"C13", "OnlyOwnerWrites">>} ELSE {})
+  \cup (IF ~NewRegsAreSequential(s, t, ev) THEN {<<"C09", "NewRegsAreSequential">>} ELSE {})
+  \cup (IF ~EscrowOnlyByStreamOps(s, t, ev) THEN {<<"C10", "EscrowOnlyByStreamOps">>} ELSE {})
+  \cup (IF ~UnsignedChangesNothing(s, t, ev) THEN {<<"C13", "UnsignedChangesNothing">>} ELSE {})
+  \cup (IF ~QueriesAndChecksReadOnly(s, t, ev) THEN {<<"C14", "ReadOnlyCallChangedState">>, <<"C20", "ReadOnlyCallChangedState">>} ELSE {})
 
 ------------------------------------------------------------------------------
 IsReset(ev) == ev.a = "InitChain"
@@ -110,6 +128,10 @@ Judge(i) ==
            THEN UNION { Tag(i, "L2", PathProps(d, ev), d) : d \in OutDiff(exp.out, ev.res.outs) } ELSE {})
      \cup { <<i, "L1", m[1], m[2]>> : m \in StateMonitors(ev.post) }
      \cup { <<i, "L1", m[1], m[2]>> : m \in StepMonitors(Trace[i - 1].post, ev.post, evm) }
+     \cup { <<i, "L1", m[1], m[2]>> : m \in HistMonitors(ev.post, exp.st.aux) }
+     \cup (IF ~FailedTxKeepsState(Trace[i - 1].post, ev.post, evm, ev.res.ok) THEN {<<i, "L1", "C14", "FailedTxKeepsState">>} ELSE {})
+     \cup (IF HasStreamMsg(evm) /\ exp.ok /\ ~ev.res.ok THEN {<<i, "L1", "C12", "StreamOperationRefused">>} ELSE {})
+     \cup (IF HasStreamMsg(evm) /\ ev.res.panic THEN {<<i, "L1", "C12", "StreamOperationPanicked">>} ELSE {})
 
 RECURSIVE GetPath(_, _)
 GetPath(v, path) == IF path = <<>> THEN v ELSE GetPath(v[Head(path)], Tail(path))
